@@ -2804,6 +2804,9 @@ void mmd_engine_update_metavalue_for_key(mmd_engine * e, const char * key, const
 
 	d_string_free(temp, true);
 	free(clean);
+
+	// The source text has changed, so anything parsed from it earlier is stale
+	mmd_engine_reset(e);
 }
 
 
